@@ -19,8 +19,8 @@ def opt(name, default=None):
 
 
 FILES = {
-    "webpsan/src/parse/lossless.rs": ["C07", "C08", "C19", "C09", "C10"],
-    "webpsan/src/parse/bitstream.rs": ["C18", "C19", "C07", "C08"],
+    "webpsan/src/parse/lossless.rs": ["C07", "C08", "C19", "C09", "C10", "C13"],
+    "webpsan/src/parse/bitstream.rs": ["C18", "C19", "C07", "C08", "C13"],
     "webpsan/src/reader.rs": ["C06", "C15", "C13", "C14"],
     "webpsan/src/lib.rs": ["C06", "C14", "C08", "C13"],
     "webpsan/src/parse/vp8x.rs": ["C17", "C06"],
